@@ -257,6 +257,7 @@ class Module:
 
 class Program:
     def __init__(self, repo: Optional[str] = None):
+        self.folded = {}     # private helper (as named by the rules) -> the caller it was folded into on THIS tree
         self.repo = repo or REPO
         self.pkg = os.path.join(self.repo, PKG_REL)
         if not os.path.isdir(self.pkg):
@@ -619,7 +620,28 @@ class Program:
                             if g is not None and g.has_decorator('staticmethod'):
                                 return self.func(f'{short}.{c.name}.{rest[0]}', raw, _alt=True)
                     break
+        # a private helper with ONE caller on the tree the rules were written against, gone now while that caller is still there: it was folded into the caller,
+        # which is where its statements are to be found (a nested function of the helper is looked up in the caller as well)
+        if not _alt:
+            from . import alpha as _alpha
+            callers = _alpha.baseline_callers()
+            parts = qual.split('.')
+            for cut in range(len(parts), 1, -1):
+                head = '.'.join(parts[:cut])
+                last = parts[cut - 1]
+                if head in callers and last.startswith('_') and not last.startswith('__') and len(callers[head]) == 1:
+                    try:
+                        host = self.func(callers[head][0], raw, _alt=True)
+                    except AnalysisError:
+                        break
+                    for part in parts[cut:]:
+                        if part not in host.nested:
+                            raise AnalysisError(f'anchor function {qual} not found (its helper {head} was folded into {callers[head][0]}, which has no {part})')
+                        host = host.nested[part]
+                    self.folded[head] = callers[head][0]
+                    return host
         raise AnalysisError(f'anchor function {qual} not found')
+
 
     inliner = None  # set by report.Ctx once call resolution is available
 
